@@ -57,4 +57,10 @@ CHECKS = {
   "note": "Partial: no theorem for the multiplexing/pipe clauses (exploration only). Trusted: Coq kernel + vm_compute, stdlib DecimalNat lemma, the hand-written model, asyncio streams, pickle/utf8. No axioms.",
   "design_ref": "DESIGN.md section 5 C18",
  },
+ "C17": {
+  "technique": "Coq proof (permutation invariant over all schedules of the supplier/consumer/renew model) + vm_compute refutation witness + trace validation of the real IterableQueue under a deterministic scheduler",
+  "text": "Theorem for every number of suppliers/consumers, queue bound, number of rounds, item lists and every interleaving: at every moment the items received (all consumers, all rounds), the items still queued and those swallowed by a failing renew() are together exactly the items put - nothing lost, duplicated or invented. The clause 'exactly one end marker remains / rounds are independent' is refuted on the current tree (two consumers both add the extra marker; witness schedule as a theorem; recorded as known finding C17-Q and replayed on the implementation). Tie: the real IterableQueue (thread flavour) runs under the deterministic scheduler over virtual queues and every run is replayed event by event in the model; the oracle compares, per round, the multisets put and received, markers/items left and renew; a second oracle-only scenario sets a stop event while parties are blocked and requires StopRequested within the wait interval.",
+  "note": "Partial: consumers_finish, per-round completeness and stop_unblocks rest on explored runs (no theorem). Process flavour not scheduled. Trusted: Coq kernel + vm_compute, the hand-written model, scheduler + virtual queue.Queue. No axioms.",
+  "design_ref": "DESIGN.md section 5 C17",
+ },
 }
